@@ -82,14 +82,15 @@ theorem col_eq_of_getElem? (key : String) (A B : List (Candle K)) (hl : A.length
     exact h j _ _ (List.getElem?_eq_getElem hj) (List.getElem?_eq_getElem (by omega))
   · rw [List.getElem?_eq_none (by omega), List.getElem?_eq_none (by omega)]
 
-/-- a context `done ++ [c]` at `done.length = m` and a context `y` at `m` see the same column -/
-theorem sameCol_of_elems (key n1 : String) (done : List (Candle K)) (y : Ctx K) (c : Candle K) (m : Nat)
-    (hd : done.length = m) (hi : y.i = m) (hB : y.cs.length = m + 1)
-    (hlt : ∀ (j : Nat) (a b : Candle K), j < m → done[j]? = some a → y.cs[j]? = some b →
+/-- a context `done ++ [c]` at `done.length = m` and a context over `B` at `m` see the same column -/
+theorem sameCol_of_elems (key n1 n2 : String) (done B : List (Candle K)) (c : Candle K) (m : Nat)
+    (hd : done.length = m) (hB : B.length = m + 1)
+    (hlt : ∀ (j : Nat) (a b : Candle K), j < m → done[j]? = some a → B[j]? = some b →
       readingByCandle a key = readingByCandle b key)
-    (heq : ∀ b, y.cs[m]? = some b → readingByCandle c key = readingByCandle b key) :
-    Ctx.SameCol key ({ cs := done ++ [c], i := done.length, name := n1 } : Ctx K) y := by
-  refine ⟨by simp [hd, hi], ?_⟩
+    (heq : ∀ b, B[m]? = some b → readingByCandle c key = readingByCandle b key) :
+    Ctx.SameCol key ({ cs := done ++ [c], i := done.length, name := n1 } : Ctx K)
+      { cs := B, i := m, name := n2 } := by
+  refine ⟨by simp [hd], ?_⟩
   apply col_eq_of_getElem? key _ _ (by simp [hd, hB])
   intro j a b ha hb
   by_cases hj : j < m
@@ -267,138 +268,7 @@ theorem ema_stepCtx (p : Nat) (hp : 2 ≤ p) (nm input : String) (fld : Candle K
       rw [mul_comm yp]
       exact hb
 
-/-! ### the own reading from the stored helper readings -/
-
-theorem kcBands_none_right (mult : Num K) (n : Nat) (e : Val K) : kcBands mult n e .none = kcNoneDict := by
-  unfold kcBands
-  split <;> first | rfl | simp_all
-
-theorem kcBands_none_left (mult : Num K) (n : Nat) (a : Val K) : kcBands mult n .none a = kcNoneDict := by
-  unfold kcBands
-  split <;> first | rfl | simp_all
-
-theorem kcBands_flt (mult : Num K) (n : Nat) (e a : K) :
-    (Val.dict [("lower", .num ((Num.flt e).sub (mult.mul (.flt a)))), ("band", .num (.flt e)),
-        ("upper", .num ((Num.flt e).add (mult.mul (.flt a))))] : Val K).roundBy n
-      = kcBands mult n (.flt e) (.flt a) := by
-  cases mult <;>
-    simp [Val.roundBy, Scalar.roundBy, Num.roundBy, kcBands, Num.mul, Num.sub, Num.add, Num.toF,
-      LawfulPyF.mul_eq, LawfulPyF.sub_eq, LawfulPyF.add_eq, LawfulPyF.ofInt_eq]
-
-theorem decoWith_bare {R : Type} (out : Candle K → R → Candle K) (hb : ∀ c r, (out c r).bare = c.bare) :
-    ∀ (raw : List (Candle K)) (rows : List R), rows.length = raw.length →
-      (decoWith out raw rows).map Candle.bare = raw.map Candle.bare := by
-  intro raw
-  induction raw with
-  | nil => intro rows _; simp [decoWith]
-  | cons c raw ih =>
-    intro rows hl
-    cases rows with
-    | nil => simp at hl
-    | cons r rows =>
-      have := ih rows (by simpa using hl)
-      simp only [decoWith, List.zipWith_cons_cons, List.map_cons, hb] at this ⊢
-      rw [this]
-
-theorem getD_map_of_lt {R : Type} (f : R → Val K) (rows : List R) (d : R) (j : Nat) (hj : j < rows.length) :
-    (rows.map f).getD j .none = f (rows.getD j d) := by
-  rw [List.getD_eq_getElem?_getD, List.getD_eq_getElem?_getD, List.getElem?_map,
-    List.getElem?_eq_getElem hj]
-  rfl
-
-/-! ### one row of the KC tree inside the series -/
-
-theorem kc_step (p : Nat) (hp : 2 ≤ p) (nm input : String) (fld : Candle K → Num K) (n : Nat) (mult : Num K)
-    (hk : IsKey nm) (hn : KcNames nm) (hin : NoDot input ∧ input ∈ Candle.attrNames)
-    (hattr : ∀ c : Candle K, c.attr input = some (.num (fld c)))
-    (raw : List (Candle K)) (hraw : ∀ c ∈ raw, Plain c)
-    (m : Nat) (hm : m < raw.length) (rows : List (KcRow K)) (hrows : rows.length = m)
-    (hQ : ∀ j, j < m → KcOK p n mult (fieldAt fld raw) raw j (rows.getD j KcRow.dflt)) :
-    ∃ r, Gen.rowStep (kcTree (F := K) nm n (p : Int) input mult (by omega) hn hin).S
-          (decoWith (kcOut nm) (raw.take m) rows) (raw.getD m default)
-        = .ok (decoWith (kcOut nm) (raw.take m) rows ++ [kcOut nm (raw.getD m default) r]) ∧
-      KcOK p n mult (fieldAt fld raw) raw m r := by
-  have htl : (raw.take m).length = m := by simp; omega
-  have hdl : (decoWith (kcOut nm) (raw.take m) rows).length = m := by
-    rw [decoWith_length _ _ _ (by rw [htl, hrows]), htl]
-  have hmem : ∀ j, j < raw.length → Plain (raw.getD j default) := fun j hj => getD_plain raw hraw j hj
-  have hget : ∀ j, j < m → (decoWith (kcOut nm) (raw.take m) rows)[j]?
-      = some (kcOut nm (raw.getD j default) (rows.getD j KcRow.dflt)) := by
-    intro j hj
-    rw [decoWith_getElem? _ _ _ KcRow.dflt j (by rw [htl, hrows]) (by rw [htl]; exact hj)]
-    congr 2
-    rw [List.getD_eq_getElem?_getD, List.getD_eq_getElem?_getD, List.getElem?_take_of_lt hj]
-  have hbare : (decoWith (kcOut nm) (raw.take m) rows).map Candle.bare = (raw.take m).map Candle.bare :=
-    decoWith_bare _ (kcOut_bare nm) _ _ (by rw [htl, hrows])
-  rw [kc_rowStep]
-  generalize hdone : decoWith (kcOut nm) (raw.take m) rows = done at hdl hget hbare ⊢
-  have hc : Plain (raw.getD m default) := hmem m hm
-  -- (1) the TR helper
-  have hT : valOf (kcT nm) done (raw.getD m default) = .ok (if m = 0 then .none else .num (trNum raw m)) := by
-    have hul : (List.replicate m (Val.none : Val K)).length = m := by simp
-    have hb : done.map Candle.bare
-        = (deco (nm ++ "_ATR" ++ "_TR") (raw.take m) (List.replicate m Val.none)).map Candle.bare := by
-      rw [hbare, deco_bare _ _ _ (by rw [htl, hul])]
-    rw [tr_ign (kcT nm) rfl _ _ _ (raw.getD m default) hb rfl]
-    unfold valOf
-    rw [deco_length _ _ _ (by rw [htl, hul]), htl]
-    exact tr_stepCtx (nm ++ "_ATR" ++ "_TR") raw (List.replicate m Val.none) m hm hul
-  have hdT : decOf (kcT nm) (if m = 0 then .none else .num (trNum raw m)) (raw.getD m default)
-      = setKey true (nm ++ "_ATR" ++ "_TR") (trStored raw m) (raw.getD m default) := by
-    unfold decOf trStored
-    by_cases h0 : m = 0 <;> simp [h0, kcT, leaf] <;> rfl
-  rw [hT]
-  simp only [pym_bind_ok]
-  rw [hdT]
-  -- (2) the ATR helper
-  have hm' : m < (trDeco (nm ++ "_ATR" ++ "_TR") raw).length := by rw [trDeco_length]; exact hm
-  have hvsA : (rows.map (·.atr)).length = m := by simp [hrows]
-  have hvsAj : ∀ j, j < m → (rows.map (·.atr)).getD j .none = (rows.getD j KcRow.dflt).atr :=
-    fun j hj => getD_map_of_lt _ rows _ j (by omega)
-  obtain ⟨w, hw, hwOK⟩ := atr_stepCtx p (by omega) (nm ++ "_ATR") defaultRound hn.kA ⟨hn.kT, hn.AT.symm⟩ raw hraw
-    (rows.map (·.atr)) m hm hvsA (fun j hj => by rw [hvsAj j hj]; exact (hQ j hj).2.1)
-  have hA : valOf (kcA nm (p : Int)) done
-      (setKey true (nm ++ "_ATR" ++ "_TR") (trStored raw m) (raw.getD m default)) = .ok w := by
-    rw [← hw]
-    show Calc.atr _ (p : Int) (nm ++ "_ATR" ++ "_TR") = _
-    have hB : (atrCtx (nm ++ "_ATR") raw (rows.map (·.atr)) m).cs.length = m + 1 :=
-      stepCtx_length _ _ _ _ hm' hvsA
-    have hlt : ∀ (j : Nat) (a b : Candle K), j < m → done[j]? = some a →
-        (atrCtx (nm ++ "_ATR") raw (rows.map (·.atr)) m).cs[j]? = some b →
-        a = kcOut nm (raw.getD j default) (rows.getD j KcRow.dflt) ∧
-        b = setKey false (nm ++ "_ATR") ((rows.getD j KcRow.dflt).atr)
-          (setKey true (nm ++ "_ATR" ++ "_TR") (trStored raw j) (raw.getD j default)) := by
-      intro j a b hj ha hb
-      rw [hget j hj] at ha
-      rw [stepCtx_lt _ _ _ m hm' hvsA j hj, hvsAj j hj, trDeco_getD _ raw j (by omega)] at hb
-      exact ⟨(Option.some.inj ha).symm, (Option.some.inj hb).symm⟩
-    have heq : ∀ b, (atrCtx (nm ++ "_ATR") raw (rows.map (·.atr)) m).cs[m]? = some b →
-        b = setKey true (nm ++ "_ATR" ++ "_TR") (trStored raw m) (raw.getD m default) := by
-      intro b hb
-      rw [stepCtx_eq _ _ _ m hm' hvsA, trDeco_getD _ raw m hm] at hb
-      exact (Option.some.inj hb).symm
-    have hown : Ctx.SameCol (nm ++ "_ATR")
-        ({ cs := done ++ [setKey true (nm ++ "_ATR" ++ "_TR") (trStored raw m) (raw.getD m default)],
-           i := done.length, name := nm ++ "_ATR" } : Ctx K)
-        (atrCtx (nm ++ "_ATR") raw (rows.map (·.atr)) m) := by
-      refine sameCol_of_elems _ _ done _ _ m hdl rfl hB ?_ ?_
-      · intro j a b hj ha hb
-        obtain ⟨rfl, rfl⟩ := hlt j a b hj ha hb
-        rw [kcOut_atr nm hn _ (hmem j (by omega)), readingByCandle_setKey_own _ hn.kA]
-      · intro b hb
-        rw [heq b hb]
-    refine atr_congr _ _ _ _ ?_ (Ctx.prevExists_congr hown) (Ctx.prevNum_congr hown)
-    refine sameCol_of_elems _ _ done _ _ m hdl rfl hB ?_ ?_
-    · intro j a b hj ha hb
-      obtain ⟨rfl, rfl⟩ := hlt j a b hj ha hb
-      rw [kcOut_tr nm hn _ (hmem j (by omega)), (hQ j hj).1,
-        indep_key (nm ++ "_ATR") (nm ++ "_ATR" ++ "_TR") hn.kT hn.AT,
-        readingByCandle_setKey true _ hn.kT _ _ (hmem j (by omega))]
-    · intro b hb
-      rw [heq b hb]
-  rw [hA]
-  simp only [pym_bind_ok]
-  sorry
-
 end Numeric
 end Hex
+#check @Hex.Numeric.ema_stepCtx
+example : (1:Nat) = 2 := rfl
